@@ -129,6 +129,7 @@ def parseStep (env : List (String × Ref)) (ws : List String) : Option Step :=
   | [t, "liststar1", x] => do some ⟨t, .alias (← var x), .list, none⟩
   | [t, "liststar2", v, x] => do some ⟨t, .cons (← int v) (← var x), .list, none⟩
   | [t, "mapcar2", x, y] => do some ⟨t, .mapcar2 (← var x) (← var y), .list, none⟩
+  | [t, "concat", x, y] => do some ⟨t, .concat (← var x) (← var y), .list, none⟩
   | [t, "butlast", n, x] => do some ⟨t, .butlast (← nat n) (← var x), .list, none⟩
   | [t, "subseq", s, e, x] => do
       let e' ← if e = "-" then some none else (nat e).map some
